@@ -130,6 +130,15 @@ def drive_group(script, valves, layout="A"):
                 if hdr[i] is None:
                     raise T.MachineryError("history must start with the reset of a valve")
                 ev[i].append(dict(op="switches", o=op["o"], c=op["c"]))
+            elif k in ("movingtime", "safestate"):       # the valve is reconfigured
+                if hdr[i] is None:
+                    raise T.MachineryError("history must start with the reset of a valve")
+                if k == "movingtime":
+                    rig.v[i].movingTime = op["mt"]
+                    ev[i].append(dict(op="movingtime", mt=op["mt"]))
+                else:
+                    rig.v[i].safeState = op["s"]
+                    ev[i].append(dict(op="safestate", s=op["s"]))
             elif k == "advance":
                 rig.now += op["dt"]
                 for j in range(n):
@@ -209,6 +218,34 @@ CHECK_DEADLOCK FALSE
     return scripts
 
 
+def enumerate_config_scripts(ctx, wd, ncycles, dts, mode, newmts, newsafes, lo, hi):
+    name = "cscripts_%d_%s_%s_%s_%s_%d%d.cfg" % (ncycles, "".join(map(str, dts)), mode,
+                                                "".join(map(str, newmts)),
+                                                "".join(str(int(b)) for b in newsafes), lo, hi)
+    T.write_cfg(wd, name, f"""SPECIFICATION SSpec
+CONSTANTS NCycles = {ncycles}
+          Dts = {{{", ".join(map(str, dts))}}}
+          Mode = "{mode}"
+          NewMts = {{{", ".join(map(str, newmts))}}}
+          NewSafes = {{{", ".join("TRUE" if b else "FALSE" for b in newsafes)}}}
+          MinChanges = {lo}
+          MaxChanges = {hi}
+INVARIANT Emit
+CHECK_DEADLOCK FALSE
+""")
+    res = T.require_clean(T.run(wd, "ValveConfigScripts", name, workers=1, timeout=600),
+                          "ValveConfigScripts")
+    ctx.tlc_stats(res)
+    scripts = [r[0] for r in T.printed_records(res, "SCRIPT")]
+    import math
+    letters = (8 if mode == "full" else 6) * len(dts)
+    c = len(newmts) + len(newsafes)
+    want = letters ** ncycles * sum(math.comb(ncycles, j) * c ** j for j in range(lo, hi + 1))
+    if len(scripts) != want:
+        raise T.MachineryError(f"ValveConfigScripts: {len(scripts)} scripts, expected {want}")
+    return scripts
+
+
 def classify(tr):
     """evidence only: did the run meet an unconfirmed command / raise its error flag"""
     coil = tr["coil0"]
@@ -238,6 +275,8 @@ def judge(ctx, wd, runs, chunk=6000):
                       nontrivial=unconfirmed)
         if "group" in meta:
             ctx.extra["valve_traces_from_groups"] = ctx.extra.get("valve_traces_from_groups", 0) + 1
+        if any(e["op"] in ("movingtime", "safestate") for e in tr["ev"]):
+            ctx.extra["runs_with_reconfiguration"] = ctx.extra.get("runs_with_reconfiguration", 0) + 1
         if raised:
             ctx.extra["runs_with_error_raised"] = ctx.extra.get("runs_with_error_raised", 0) + 1
         if raised and unconfirmed and meta["mt"] > 0 and \
@@ -253,7 +292,8 @@ def judge(ctx, wd, runs, chunk=6000):
     for k, (meta, tr, matched, length, inv) in enumerate(failed):
         if 0 <= matched < length and tr["ev"][matched]["op"] == "update" \
                 and tr["ev"][matched]["res"] == "ok":
-            e = dict(tr["ev"][matched], coil=tr["safe"], target=tr["safe"])
+            safe_now = ([tr["safe"]] + [x["s"] for x in tr["ev"][:matched] if x["op"] == "safestate"])[-1]
+            e = dict(tr["ev"][matched], coil=safe_now, target=safe_now)
             what_if.append(dict(tr, ev=tr["ev"][:matched] + [e]))
             idx.append(k)
     verdict = {}
@@ -324,6 +364,22 @@ CHECK_DEADLOCK FALSE
                                      config=[dict(mt=a, safe=b) for a, b in cfg])
                                 for n, c, d, m, st, cfg in gplans]
 
+    # histories in which the valve is reconfigured on the way (new moving time / new safe state):
+    # (cycles, dts, letters, new moving times, new safe states, min, max changes, initial (mt, safe))
+    if ctx.quick:
+        cplans = [(2, (1, 2), "full", (0, 1, 3), (), 1, 1, [(0, False), (1, False), (3, False)]),
+                  (2, (1, 2), "full", (), (False, True), 1, 1, [(1, True), (3, False)]),
+                  (2, (1, 2), "full", (1, 3), (), 2, 2, [(3, False)])]
+    else:
+        cplans = [(3, (1, 2), "three-switch", (0, 1, 3), (), 1, 2,
+                   [(1, False), (3, False)]),
+                  (2, (0, 1, 2), "full", (0, 1, 3), (False, True), 1, 2,
+                   [(0, False), (1, False), (3, False), (1, True), (3, True)])]
+    ctx.extra["reconfiguration_plans"] = [
+        dict(cycles=c, dts=list(d), letters=m, new_moving_times=list(nm), new_safe_states=list(ns),
+             changes=[lo, hi], initial=[dict(mt=a, safe=b) for a, b in ini])
+        for c, d, m, nm, ns, lo, hi, ini in cplans]
+
     def group_runs(script, group, layout):
         traces = drive_group(script, group, layout)
         return [(dict(mt=g["mt"], safe=g["safe"], layout=layout, coil0=g.get("coil0", False),
@@ -344,6 +400,12 @@ CHECK_DEADLOCK FALSE
                         s = json.loads(js)
                         yield [(dict(mt=mt, safe=safe, layout="A", coil0=False, script=s),
                                 drive(s, mt, safe))]
+        for cyc, dts, mode, newmts, newsafes, lo, hi, initial in cplans:
+            scripts = enumerate_config_scripts(ctx, wd, cyc, dts, mode, newmts, newsafes, lo, hi)
+            for mt, safe in initial:
+                for s in scripts:
+                    yield [(dict(mt=mt, safe=safe, layout="A", coil0=False, script=s),
+                            drive(s, mt, safe))]
         for n, cyc, dts, mode, staggers, cfg in gplans:
             group = [dict(mt=a, safe=b, coil0=False, configure="instance") for a, b in cfg]
             for s in enumerate_group_scripts(ctx, wd, n, cyc, dts, mode, staggers):
@@ -365,6 +427,10 @@ CHECK_DEADLOCK FALSE
                     s.append(dict(op="advance", dt=rng.randint(1, 3)))
             for _ in range(rng.randint(4, 12)):
                 for k in range(n):
+                    if rng.random() < 0.25:
+                        s.append(dict(op="movingtime", i=k, mt=rng.choice(MOVING_TIMES + (2, 5))))
+                    if rng.random() < 0.1:
+                        s.append(dict(op="safestate", i=k, s=rng.random() < 0.3))
                     if rng.random() < 0.8:
                         s.append(dict(op="target", i=k, v=rng.random() < 0.5))
                     if rng.random() < 0.8:
@@ -392,7 +458,13 @@ CHECK_DEADLOCK FALSE
                   "valve judged by its own instance of the spec: "
                 + "; ".join(f"{n} valves (mt, safe) = {cfg}, {c} cycles, dt in {set(d)}, letters '{m}', "
                             f"reset stagger in {set(st)}" for n, c, d, m, st, cfg in gplans)
-                + ", TLC-enumerated; plus seeded random longer histories of 1..3 valves; "
+                + ", TLC-enumerated; histories with reconfiguration steps (new moving time / new safe "
+                  "state between updates, judged by the configuration in force at each update): "
+                + "; ".join(f"{c} cycles, dt in {set(d)}, letters '{m}', new moving times {set(nm) or '{}'}, "
+                            f"new safe states {set(ns) or '{}'}, {lo}..{hi} changes, initial (mt, safe) in {ini}"
+                            for c, d, m, nm, ns, lo, hi, ini in cplans)
+                + ", TLC-enumerated; plus seeded random longer histories of 1..3 valves with random "
+                  "reconfigurations; "
                   "non-trivial = some update found the switches not confirming the commanded position")
 
 
